@@ -86,6 +86,24 @@ func c01(tier string, args []string) int {
 				r.Sample(map[string]interface{}{"config": cfg.String(), "states": res.States, "transitions": res.Transitions})
 			}
 		}
+		// a Byzantine participant that delivers valid shares for only the first message of a
+		// multi-message batch: whatever the nodes do with it, no invalid signature may appear
+		if nt.n >= 3 && nt.n <= 4 {
+			for b := 0; b < nt.n; b++ {
+				cfg := SignCfg{N: nt.n, T: nt.t, Batches: []Batch{batchAlphabet(fmt.Sprintf("z%d", b))[1]}, Proposers: []int{0}, Truncating: []int{b}}
+				o := newSigOracle(r, "C01", sw.GroupKey, sw.Round, cfg.Batches)
+				m := sw.Model(cfg, func(k *worldx.Worker, s *worldx.State) error { o.CheckState(k, s); return nil }, r.TimeUp)
+				res, err := worldx.BFS(sw.Workers, sw.Init, m, false)
+				if err != nil {
+					r.Infra("exploration %s: %v", cfg, err)
+				}
+				totalStates += res.States
+				totalTrans += res.Transitions
+				totalTerm += res.Terminal
+				r.Add("signature_records_checked", o.Checked)
+				configs = append(configs, fmt.Sprintf("%s: states=%d transitions=%d terminal=%d", cfg, res.States, res.Transitions, res.Terminal))
+			}
+		}
 		// interleavings of polls: every single lagging node (and all nodes lagging for n=2),
 		// two batches, so that reconstruction broadcasts, late answers and the next proposal
 		// interleave in every order
